@@ -62,6 +62,7 @@ def rule_check(sc, r):
                     x["onepc_keys"] = set(f["keys"])
             elif cmd == "Commit" and f["start"] in txs and e.get("client") in ("c1", "c2") :
                 x = S(f["start"])
+                x["any_commit"] = True
                 owner = True
                 if exp is not None and f["start"] == r.get("start_ts"):
                     need = {kk.encode().hex() for kk, op in exp.items() if op != "cne"}
@@ -199,6 +200,14 @@ def rule_check(sc, r):
                 allk = {kk.encode().hex() for kk in exp}
                 if set(f["keys"]) != allk:
                     bad.append("one-phase commit attempted with a prewrite request that does not hold the whole transaction")
+    # every transaction of a program: the primary its prewrites name is one of the mutations they lock (union over the
+    # prewrite requests of the last commit attempt; a check-not-exists mutation locks nothing)
+    for S, x in st.items():
+        if not isinstance(S, int) or not isinstance(x, dict) or S == S0 or not x.get("pw_req"):
+            continue
+        locked = {kk for kk, op in x["ops"].items() if op != "cne"}
+        if x["primary"] is not None and locked and x["primary"] not in locked and x.get("any_commit"):
+            bad.append(f"the primary {bytes.fromhex(x['primary']).decode(errors='replace')} named by the prewrites of txn {S} is not among its locked mutations {sorted(bytes.fromhex(k).decode(errors='replace') for k in locked)}")
     return bad
 
 
@@ -288,7 +297,18 @@ def main(tier, replay):
                    "program": [{"t": "t1", "op": "begin"}, {"t": "t1", "op": "lock", "ks": ["k1", "k3"][: 1 + i % 2], "wait": -1}, {"t": "t1", "op": "sleep", "wait": 450 + 100 * (i % 3)},
                                {"t": "t1", "op": "set", "k": "k1", "v": "x"}, {"t": "t1", "op": rng.choice(["commit", "rollback"])}, {"t": "t1", "op": "sleep", "wait": 350}],
                    "keys": ["k1", "k2", "k3"], "black_from": -1})
-    allsc = probes + cases + hb
+    # the same monitor on concurrent multi-transaction programs (the generator of C01: optimistic and pessimistic transactions in
+    # every commit mode contending for a few keys, failed lock calls, splits, concurrent-reader hooks); python predicates only —
+    # the extracted acceptor's vocabulary describes one committing transaction and its resolvers
+    import sys, os
+    sys.path.insert(0, os.path.dirname(os.path.abspath(__file__)))
+    import C01
+    prng = random.Random(vlib.SEED * 7919 + 1)
+    progs = [C01.gen_history(prng, 50000 + i) for i in range(80 if tier == "quick" else 1200)]
+    for sc in progs:
+        sc["id"] = "prog-" + sc["id"]
+        sc["no_acceptor"] = True
+    allsc = probes + cases + hb + progs
     res = txnlab.run_scenarios(exe, allsc)
     nviol, dist, distinct, traces = 0, {}, set(), []
     for sc, r in zip(allsc, res):
@@ -314,7 +334,9 @@ def main(tier, replay):
             if nviol <= 5:
                 v.violation({"kind": "property-oracle", "scenario": sc, "violated": bad[:6], "told": r.get("told"),
                              "trace_tail": [e for e in r.get("trace", []) if e["kind"] != "tso" and e.get("client") == "c1"][-50:]})
-        traces.append((sc, r))
+        if not sc.get("no_acceptor"):
+            traces.append((sc, r))
+    cov["programs_monitored"] = len(progs)
     cov.update(run_acceptor(traces, v, PID, exe=exe))
     if not gate["ok"]:
         v.violation({"kind": "proof", "theorem_or_file": gate["problems"], "what": "Coq obligations no longer check"}, has_input=False)
